@@ -276,6 +276,11 @@ def run_method(args):
                 c3 = m.copy(**{k: v})
                 out["override"] = [k, norm(v)]
                 out["override_params"] = {kk: norm(vv) for kk, vv in c3.get_parameters().items()}
+                # ... and the object it was taken from is what it was: same parameters, and a later plain copy() /
+                # reconstruction has them too
+                out["after_override"] = [{kk: norm(vv) for kk, vv in x.items()} for x in
+                                         (m.get_parameters(), m.copy().get_parameters(),
+                                          type(m)(**m.get_parameters()).get_parameters())]
             except Exception as e:  # noqa: BLE001
                 out["override_error"] = repr(e)[:200]
         # identical outputs on one matrix
@@ -379,6 +384,10 @@ def run(ctx):
                                    "params": o["params"], "copy": o["copy_params"], "rebuild": o["rebuild_params"]})
         if not o["outputs_equal"]:
             ctx.oracle_fail(case, {"oracle": "copy / rebuilt object gives a different output"})
+        if any(x != o["params"] for x in o.get("after_override", [])):
+            ctx.oracle_fail(case, {"oracle": "after m.copy(**override) the original object (or a later copy() / "
+                                             "reconstruction of it) reports other parameters than before",
+                                   "before": o["params"], "after": o["after_override"]})
         if "override_error" in o:
             ctx.oracle_fail(case, {"oracle": "copy(**override) raised " + o["override_error"]})
         if "override" in o:
